@@ -287,6 +287,10 @@ type chunks[T any] []struct {
 
 // chunkAt loads the fill and data list at a particular chunk
 func (s chunks[T]) chunkAt(chunk commit.Chunk) (bitmap.Bitmap, []T) {
+	if int(chunk) >= len(s) {
+		return nil, nil // not grown yet: an insert reserved an offset in this chunk but has not committed
+	}
+
 	fill := s[chunk].fill
 	data := s[chunk].data
 	return fill, data
